@@ -77,4 +77,10 @@ TEXT = {
         "note": NOTE,
         "technique": "runtime monitor: reference-model comparison (truth table, map/set models, exact brute-force sum) and a functional-dependency checker hash<->residual over push/decide/pop histories",
     },
+    "C10": {
+        "level": "Exploration by runtime monitoring of query histories: interleaved queries of different memo types on pools of diagrams sharing nodes are checked for repeatability, for agreement with the same query on a freshly rebuilt copy, and a full scratch scan of every reachable node runs after every public call; rsdd's own debug assertions are compiled in; Miri leg for the boxed-Any scratch traffic.",
+        "design_ref": "DESIGN.md section 4, C10",
+        "note": NOTE,
+        "technique": "runtime monitor: query-history checker (first-answer map + fresh-copy differential) and a scratch-slot invariant scan at every quiescent point; Miri leg",
+    },
 }
